@@ -870,9 +870,9 @@ fn c06_bytes(b: &[u8]) -> Result<(), String> {
     Ok(())
 }
 fn c06(cases: &mut u64) -> Option<String> {
-    let alpha: [char; 11] = ['a', ' ', '\n', '\r', '\u{a0}', '\u{e9}', '\u{2028}', '\u{3000}', '\u{85}', '\u{301}', '\u{1f600}'];
+    let alpha: [char; 15] = ['a', ' ', '\n', '\r', '\u{a0}', '\u{e9}', '\u{2028}', '\u{3000}', '\u{85}', '\u{301}', '\u{1f600}', '\u{b}', '\u{c}', '\t', '\0'];
     let mut layer: Vec<String> = vec![String::new()];
-    for _len in 0..=bd(5) {
+    for _len in 0..=bd(4) {
         for s in &layer {
             *cases += 1;
             match guard(|| c06_str(s)) {
@@ -888,9 +888,9 @@ fn c06(cases: &mut u64) -> Option<String> {
         *cases += 1;
         if let Ok(Err(e)) | Err(e) = guard(|| c06_str(s)).map(|r| r) { return Some(format!("C06 {}", e)); }
     }
-    let balpha: [u8; 11] = [b'a', b' ', b'\n', b'\r', 0xC3, 0xA9, 0xFF, 0xE2, 0x80, 0xA8, 0x00];
+    let balpha: [u8; 13] = [b'a', b' ', b'\n', b'\r', 0xC3, 0xA9, 0xFF, 0xE2, 0x80, 0xA8, 0x00, 0x0B, 0x0C];
     let mut layer: Vec<Vec<u8>> = vec![vec![]];
-    for _len in 0..=bd(5) {
+    for _len in 0..=bd(4) {
         for b in &layer {
             *cases += 1;
             match guard(|| c06_bytes(b)) {
@@ -1959,7 +1959,7 @@ fn c13(cases: &mut u64) -> Option<String> {
 // ---------------------------------------------------------------------------------------------
 /// newline-terminated texts first (shortest first), then the same texts lacking the final newline
 fn line_texts() -> Vec<String> {
-    let full: Vec<String> = seqs(3, 4).iter().map(|s| s.iter().map(|&x| format!("{}\n", (b'a' + x as u8) as char)).collect()).collect();
+    let full: Vec<String> = seqs(3, bd(4)).iter().map(|s| s.iter().map(|&x| format!("{}\n", (b'a' + x as u8) as char)).collect()).collect();
     let mut out = full.clone();
     out.extend(full.iter().filter(|t| !t.is_empty()).map(|t| t[..t.len() - 1].to_string()));
     out
@@ -2210,6 +2210,26 @@ fn c04(cases: &mut u64) -> Option<String> {
             }
         }
     }
+    // above the 100-token switch of the builder: reconstruction of both texts from iter_all_changes (line tokens)
+    for (name, o, n) in big_shapes(130).into_iter().chain(c02_large_shapes()) {
+        // small vocabulary with repeated blank lines, so that runs of equal neighbours occur
+        let ot: String = o.iter().map(|x| if x % 5 == 0 { "\n".to_string() } else { format!("w{}\n", x % 11) }).collect();
+        let nt: String = n.iter().map(|x| if x % 5 == 0 { "\n".to_string() } else { format!("w{}\n", x % 11) }).collect();
+        for &alg in &ALGS {
+            *cases += 1;
+            let ctx = format!("C04 large line diff '{}' ({} / {} lines) alg={:?}", name, o.len(), n.len(), alg);
+            let r = guard(|| {
+                let mut cfg = TextDiff::configure();
+                cfg.algorithm(alg);
+                let d = cfg.diff_lines(&ot[..], &nt[..]);
+                d.iter_all_changes().map(|c| (c.tag(), c.old_index(), c.new_index(), c.value().to_string())).collect::<Vec<TextFlat>>()
+            });
+            match r {
+                Err(p) => return Some(format!("{}: {}", ctx, p)),
+                Ok(ch) => if let Err(e) = c04_changes(&format!("{} iter_all_changes", ctx), &ot, &nt, &ch) { return Some(e); },
+            }
+        }
+    }
     None
 }
 
@@ -2227,7 +2247,7 @@ fn main() {
         "C07" => (c07(&mut cases), "alphabet {0,1,2}, len 0..=6, deadline expired at entry, raw algorithms + capture_diff_deadline; builder plumbing; work after expiry <= 8(N+M)+16 on 6 shapes of 40 and 300 items"),
         "C07clock" => (c07_clock(&mut cases), "virtual clock (cfg similar_verif): alphabet {0,1,2} len 0..=5 x every deadline check k, plus 6 shapes of 120 items x sampled k; valid script, finish once, never-expiring == no deadline, work after expiry <= 8(N+M)+16"),
         "C05bytes" => (c05_bytes(&mut cases), "[u8] line texts (feature bytes) of 0..=3 lines over {a, b, 0xFF, a 0xFE b}, terminated or not, radius 0/3, header on/off: UnifiedDiff::to_writer keeps every change line's bytes, equals Display on UTF-8, Display is its lossy decoding otherwise"),
-        "C06" => (c06(&mut cases), "str: all strings of length 0..=5 over 11 scalars (ASCII, CR, LF, NBSP, U+2028, U+3000, U+0085, combining mark, 2- and 4-byte chars) + 4 longer texts; [u8]: all byte strings of length 0..=5 over 11 bytes incl. invalid UTF-8; lines / lines_and_newlines / words / chars; str vs [u8] on the same bytes"),
+        "C06" => (c06(&mut cases), "str: all strings of length 0..=4 over 15 scalars (ASCII, CR, LF, TAB, VT, FF, NUL, NBSP, U+2028, U+3000, U+0085, combining mark, 2- and 4-byte chars) + 4 longer texts; [u8]: all byte strings of length 0..=4 over 13 bytes incl. invalid UTF-8; lines / lines_and_newlines / words / chars; str vs [u8] on the same bytes"),
         "C08" => (c08(&mut cases), "alphabet {0,1,2}, len 0..=4, 6 hook stacks x 2 hook kinds x every failing call index"),
         "C02" => (c02(&mut cases), "alphabet {0,1,2}, len 0..=5, deadline none/expired, slices + sub-ranges + TextDiff chars; 12 text diffs of 101..260 tokens through the integer-mapping path"),
         "C03" => (c03(&mut cases), "alphabet {0,1,2} len 0..=6 and alphabet {0,1} len 0..=8, Myers + LCS, raw + captured"),
@@ -2237,7 +2257,7 @@ fn main() {
         "C12" => (c12(&mut cases), "alternating exact op lists up to 8 ops, equal lens {1,2,3,5,8}, 6 change shapes, n 0..=3"),
         "C13" => (c13(&mut cases), "synthetic ops + captured ops for alphabet {0,1,2} len 0..=5 + TextDiff chars"),
         "C05" => (c05(&mut cases), "lines {a,b,c}, 0..=4 lines, optional missing final newline, radius 0..=2"),
-        "C04" | "C17" => (c04(&mut cases), "texts over {a,b,space,newline} len 0..=4, lines/words/chars, iter_all_changes + remapper + utils helpers"),
+        "C04" | "C17" => (c04(&mut cases), "texts over {a,b,space,newline} len 0..=4, lines/words/chars, iter_all_changes + remapper + utils helpers; 12 line diffs of 101..260 lines (reconstruction through the integer-mapping path)"),
         _ => {
             eprintln!("usage: replay <C01|C02|C03|C04|C05|C07|C08|C09|C10|C11|C12|C13|C17>");
             std::process::exit(2);
